@@ -575,19 +575,19 @@ package keeper
 //@   prop C20
 //@ func (k msgServer) MoveAvailableVesting(goCtx, msg) (r0, r1)
 //@   requires msg != nil && cvaSane(fromBech32(msg.FromAddress)) && timeOK($blockTime)
-//@   prop C20 C07
+//@   prop C20
 //@ func (k msgServer) MoveAvailableVestingByDenoms(goCtx, msg) (r0, r1)
 //@   requires msg != nil && cvaSane(fromBech32(msg.FromAddress)) && timeOK($blockTime)
 //@   // ValidateBasic accepted the message (since the denom fix it checks every denomination)
 //@   requires forall i: int :: {msg.Denoms[i]} 0 <= i && i < len(msg.Denoms) ==> validDenom(msg.Denoms[i])
-//@   prop C20 C07
+//@   prop C20
 //@ func (k msgServer) SendToVestingAccount(goCtx, msg) (r0, r1)
 //@   requires msg != nil && poolsSane(msg.Owner) && $pLen[msg.Owner] <= 1000000 && poolTimesSane(msg.Owner) && vestingTypesSane()
 //@   requires timeOK($blockTime) && $blockTime >= -1000000000000000000 && $blockTime <= 1000000000000000000 && (!msg.Amount.IsNil() ==> abs(msg.Amount) <= 1e60)
 //@   prop C20
 //@ func (k msgServer) SplitVesting(goCtx, msg) (r0, r1)
 //@   requires msg != nil && cvaSane(fromBech32(msg.FromAddress)) && timeOK($blockTime)
-//@   prop C20 C07
+//@   prop C20
 //@ func (k msgServer) WithdrawAllAvailable(goCtx, msg) (r0, r1)
 //@   requires msg != nil && poolsSane(msg.Owner) && $pLen[msg.Owner] <= 1000000
 //@   prop C20
